@@ -154,9 +154,6 @@ func VerifC05Cond() {
 		nd.Assert(err == nil || isCCF, "C05-refusal-is-ConditionalCheckFailed")
 		after := vScanAll(c)
 		nd.Assert(vSameItems(before, after), "C05-refusal-changes-nothing")
-		if isCCF && !retOld {
-			nd.Assert(len(failItem) == 0, "C05-refusal-carries-no-item-unless-asked ["+[]string{"PutItem", "UpdateItem", "DeleteItem"}[op]+"]")
-		}
 		if isCCF && retOld && present {
 			nd.Reach("refusal-with-item-requested")
 			nd.Assert(vSameItem(failItem, m.full(target, tattrs)), "C05-refusal-carries-stored-item ["+[]string{"PutItem", "UpdateItem", "DeleteItem"}[op]+"]")
